@@ -195,7 +195,13 @@ impl Term {
                     return true;
                 }
             }
-            Event::List((s, cols)) => self.log.push(Ev::List(s, cols.iter().map(|c| (c.start, c.end)).collect())),
+            Event::List((s, cols)) => {
+                // the underline ranges of a line come in no particular order (a terminal draws
+                // them all): sorted, so that transcripts compare
+                let mut c: Vec<(usize, usize)> = cols.iter().map(|c| (c.start, c.end)).collect();
+                c.sort();
+                self.log.push(Ev::List(s, c))
+            }
             Event::Cls => self.log.push(Ev::Cls),
             Event::Inkey => {
                 let k = o.keys.pop_front().unwrap_or_default();
